@@ -54,6 +54,8 @@ _get_deps.__name__ = "get_deps"
 def build(tier, seed):
     set_tier(tier)
     tasks = [a_task(PROP, _mk(k)) for k in KINDS]
+    tasks.append(standin_task(PROP, "parser.access_product", lambda: __import__("bounded.c04", fromlist=["x"]).search(), "ford.sourceform (real parser)",
+                          "what a module makes accessible follows its access statements (every entity of a name; protected variables are accessible): the names a USE statement can import", "access product of C04"))
     tasks.append(a_task(PROP, _get_deps))
     tasks.append(Task(f"{PROP}.S.deplist", PROP, "Project.correlate deplist", lambda: __import__("contracts.deps", fromlist=["x"]).deplist_obligations(PROP, lambda: __import__("bounded.c06", fromlist=["x"]).search())))
     tasks.append(Task(f"{PROP}.S.find_used_modules", PROP, "find_used_modules", lambda: __import__("contracts.external", fromlist=["x"]).find_used_modules_recursion(PROP, lambda: __import__("bounded.c07", fromlist=["x"]).search())))
